@@ -54,7 +54,9 @@ class Gen:
             return self.leaf(r.choice(["blocksize(1) = 3", "do_x = 1", "endif_v = 2", "type_a = 1", "where_v(1) = 2", "if_cond = 3", "selector = 1",
                                        "interface_x = 1", "module_v = 2", "enddo = 1", "contains_x = 1", "function_f = 2", "program_p = 1",
                                        "critical_v = 1", "associate_a = 1", "use_it = 1", "implicit_v = 1", "data_blk = 1", "call blocksize(x)",
-                                       "blocksize = blocksize + 1", "print *, blocksize"]), "LPlain")
+                                       "blocksize = blocksize + 1", "print *, blocksize",
+                                       # variables named exactly like a construct keyword (element or component assignments)
+                                       "block(1) = 3", "block = 3", "where(1) = 3", "associate(1) = 2", "block%x = 1", "where(2)%w = 1"]), "LPlain")
         v = r.choice(["x", "y", "arr(1)"])
         return self.leaf(r.choice(["%s = %s + 1" % (v, v), "call ext_sub(%s)" % v, "print *, %s" % v, "continue", "%s=2" % v]), "LPlain")
 
